@@ -35,4 +35,31 @@ pub mod acme_common { pub mod error {
     }
     impl From<IoError> for Error { #[verifier::external_body] fn from(e: IoError) -> Self { unimplemented!() } }
     }
-}}
+}
+// Trusted view of acme_common::crypto as seen from the acmed crate (the functions themselves are
+// verified in the acme_common units where Verus can reach them).
+pub mod crypto {
+    use vstd::prelude::*;
+    use super::error::Error;
+    verus! {
+    pub struct KeyPair { pub id: Ghost<int> }
+    pub uninterp spec fn key_pem(k: KeyPair) -> Seq<u8>;          // PKCS#8 PEM of the private key
+    pub uninterp spec fn pem_key(pem: Seq<u8>) -> Option<KeyPair>; // its inverse where defined
+    pub struct X509Certificate { pub id: Ghost<int> }
+    pub uninterp spec fn pem_cert(pem: Seq<u8>) -> Option<X509Certificate>;
+    impl KeyPair {
+        #[verifier::external_body]
+        pub fn private_key_to_pem(&self) -> (r: Result<Vec<u8>, Error>)
+            ensures r matches Ok(v) ==> v@ == key_pem(*self) { unimplemented!() }
+        #[verifier::external_body]
+        pub fn from_pem(pem: &Vec<u8>) -> (r: Result<KeyPair, Error>)
+            ensures r matches Ok(k) ==> pem_key(pem@) == Some(k) { unimplemented!() }
+    }
+    impl X509Certificate {
+        #[verifier::external_body]
+        pub fn from_pem(pem: &Vec<u8>) -> (r: Result<X509Certificate, Error>)
+            ensures r matches Ok(c) ==> pem_cert(pem@) == Some(c) { unimplemented!() }
+    }
+    }
+}
+}
